@@ -14,6 +14,8 @@
  *   C0 / C1 / C2     close a standard descriptor
  *   SLEEP:<usecs>    simulated sleep (the simulator holds the child; nothing real happens)
  *   IGNTERM          ignore SIGTERM from now on
+ *   STOP:<usecs>     stop itself (SIGSTOP, as job control or a debugger would); the simulator continues it after
+ *                    <usecs> of simulated time. Replies once before stopping and once after being continued.
  *   HOLD             fork a passive grandchild that inherits stdout/stderr and only pause()s, so the pipes
  *                    stay open for writing after this process has exited (its pid is reported in aux)
  *   EXIT:<code>      _exit(code)
@@ -35,8 +37,8 @@
 #define CTL_FD 200
 #define MAX_ACTIONS 64
 
-enum { A_R, A_RA, A_W1, A_W2, A_CAT, A_C0, A_C1, A_C2, A_SLEEP, A_IGNTERM, A_EXIT, A_KILL, A_HOLD };
-enum { ST_RUNNABLE = 0, ST_BLOCKED_READ = 1, ST_BLOCKED_W1 = 2, ST_BLOCKED_W2 = 3, ST_SLEEPING = 4, ST_EXITING = 5 };
+enum { A_R, A_RA, A_W1, A_W2, A_CAT, A_C0, A_C1, A_C2, A_SLEEP, A_IGNTERM, A_EXIT, A_KILL, A_HOLD, A_STOP };
+enum { ST_RUNNABLE = 0, ST_BLOCKED_READ = 1, ST_BLOCKED_W1 = 2, ST_BLOCKED_W2 = 3, ST_SLEEPING = 4, ST_EXITING = 5, ST_STOPPING = 6 };
 
 struct action {
   int kind;
@@ -107,6 +109,7 @@ static void parse(const char* s) {
     else if (!strcmp(name, "SLEEP")) a->kind = A_SLEEP;
     else if (!strcmp(name, "IGNTERM")) a->kind = A_IGNTERM;
     else if (!strcmp(name, "HOLD")) a->kind = A_HOLD;
+    else if (!strcmp(name, "STOP")) a->kind = A_STOP;
     else if (!strcmp(name, "EXIT")) a->kind = A_EXIT;
     else if (!strcmp(name, "KILL")) a->kind = A_KILL;
     else continue;
@@ -285,6 +288,15 @@ static void step(void) {
       signal(SIGTERM, SIG_IGN);
       pc++;
       break;
+    case A_STOP:
+      rp.state = ST_STOPPING;
+      rp.aux = a->n;
+      pc++;
+      send_reply();
+      raise(SIGSTOP); /* execution continues here after SIGCONT */
+      rp.state = ST_RUNNABLE;
+      rp.aux = 0;
+      break;
     case A_HOLD: {
       /* handshake: this step only completes once the grandchild has dropped the descriptors it must
        * not hold, so that no pipe state depends on when the grandchild gets the CPU */
@@ -324,6 +336,13 @@ int main(int argc, char** argv) {
   rp.read_hash = 0xCBF29CE484222325ULL;
   if (argc < 2) return 96;
   parse(argv[1]);
+  /* what an ordinary program would have found: are the standard descriptors it was given in blocking mode?
+   * (O_NONBLOCK is a property of the open file description and survives fork and exec; cat, head etc. fail
+   * with EAGAIN on such descriptors). Reported in the hello reply, bit i = descriptor i is non-blocking. */
+  for (int fd = 0; fd < 3; fd++) {
+    int fl = fcntl(fd, F_GETFL, 0);
+    if (fl >= 0 && (fl & O_NONBLOCK)) rp.aux |= (1u << fd);
+  }
   set_nonblock(0);
   set_nonblock(1);
   set_nonblock(2);
